@@ -156,6 +156,98 @@ async fn copier(a: Args, idx: usize, m: ss::Method, users: usize) -> Report {
             rep.violation(format!("C02|{}|copier:owner-not-answered-after-a-replay-from-another-address", cfgname), format!("{cfgname}: after a captured datagram was re-sent from another address the owner's pending answers never arrived"), w);
         }
     }
+    // a binding that is re-opened: something undecodable arrives at the binding's socket from the server's address (its
+    // reply task ends), and the application's NEXT datagram goes to ANOTHER target: it must arrive there, and only there
+    {
+        let nonce2 = rng.next_u64();
+        if let (Ok(ta), Ok(tb)) = (super::c02::start_udp_target(nonce2, 0, 1, false).await, super::c02::start_udp_target(nonce2, 1, 1, false).await) {
+            for round in 0..if a.thorough { 6u16 } else { 2 } {
+                let app = UdpSocket::bind("127.0.0.1:0").await.unwrap();
+                let appid = 900 + round;
+                let mut buf = vec![0u8; 70000];
+                let mut ask = |target: u16, port: u16, seq: u32| socks5_udp("127.0.0.1", port, &make_payload(nonce2, appid, target, seq, 300, 0));
+                let _ = app.send_to(&ask(0, ta.port, 0), ("127.0.0.1", d.client_port)).await;
+                let first = tokio::time::timeout(Duration::from_millis(1500), app.recv_from(&mut buf)).await.is_ok();
+                let injected = fwd.inject_to_clients(&rng.bytes(40 + round as usize)).await;
+                tokio::time::sleep(Duration::from_millis(150)).await;
+                // up to three datagrams for the other target (the first may be the one that only re-opens the binding)
+                let mut labelled: Option<(String, u16)> = None;
+                for seq in 1..=3u32 {
+                    let _ = app.send_to(&ask(1, tb.port, seq), ("127.0.0.1", d.client_port)).await;
+                    if let Ok(Ok((n, _))) = tokio::time::timeout(Duration::from_millis(800), app.recv_from(&mut buf)).await {
+                        labelled = super::c02::socks5_udp_parse(&buf[..n]).map(|(h, p, _)| (h, p));
+                        break;
+                    }
+                }
+                rep.evaluations += 1;
+                rep.mon("bindings_reopened_for_another_target", if first && injected > 0 { 1 } else { 0 });
+                rep.case(&("rebind", idx, round), first);
+                let (pa, pb): (Vec<String>, Vec<String>) = (ta.log.lock().unwrap().problems.clone(), tb.log.lock().unwrap().problems.clone());
+                let w = json!({"seed": a.seed, "config": cfgname, "round": round, "first_exchange_answered": first, "garbage_datagrams_injected_towards_the_client": injected, "problems_at_first_target": pa, "problems_at_second_target": pb, "label_of_the_answer": labelled, "second_target_port": tb.port});
+                if let Some(p) = pa.iter().chain(pb.iter()).next() {
+                    rep.violation(format!("C02|{}|rebind:{}", cfgname, crate::panicmon::normalise(p)), format!("{cfgname}: after the binding was re-opened: {p}"), w.clone());
+                    break;
+                }
+                if let Some((h, p)) = &labelled {
+                    if h != "127.0.0.1" || *p != tb.port {
+                        rep.violation(format!("C02|{}|rebind:answer-labelled-with-another-target", cfgname), format!("{cfgname}: the answer of 127.0.0.1:{} is labelled {h}:{p}", tb.port), w);
+                    }
+                } else if first {
+                    rep.violation(format!("C02|{}|rebind:not-served-after-the-binding-was-reopened", cfgname), format!("{cfgname}: three datagrams to a second target after an undecodable datagram had reached the binding: none answered"), w);
+                }
+            }
+        }
+    }
+    // one application socket, first a target addressed by NAME, then another host that answers from the SAME port number:
+    // each answer is labelled with the address of the target that sent it
+    {
+        let nonce3 = rng.next_u64();
+        if let Ok(ta) = super::c02::start_udp_target(nonce3, 0, 1, false).await {
+            if let Ok(tb) = UdpSocket::bind(("127.0.0.2", ta.port)).await {
+                let tb = Arc::new(tb);
+                let tb2 = tb.clone();
+                let echo_b = tokio::spawn(async move {
+                    let mut b = vec![0u8; 70000];
+                    while let Ok((n, from)) = tb2.recv_from(&mut b).await {
+                        if let Ok(id) = check_payload(nonce3, &b[..n]) {
+                            let len = u32::from_be_bytes(b[16..20].try_into().unwrap()) as usize;
+                            let _ = tb2.send_to(&make_payload(nonce3, id.app, 1, id.seq, len, 1), from).await;
+                        }
+                    }
+                });
+                let app = UdpSocket::bind("127.0.0.1:0").await.unwrap();
+                let mut buf = vec![0u8; 70000];
+                let mut labels: Vec<(String, String, u16)> = Vec::new();
+                for (seq, (host, tidx)) in [("localhost", 0u16), ("127.0.0.2", 1), ("localhost", 0), ("127.0.0.2", 1)].into_iter().enumerate() {
+                    let p = make_payload(nonce3, 950, tidx, seq as u32, 120, 0);
+                    for _attempt in 0..2 {
+                        let _ = app.send_to(&socks5_udp(host, ta.port, &p), ("127.0.0.1", d.client_port)).await;
+                        if let Ok(Ok((n, _))) = tokio::time::timeout(Duration::from_millis(1000), app.recv_from(&mut buf)).await {
+                            if let Some((h, port, payload)) = super::c02::socks5_udp_parse(&buf[..n]) {
+                                if let Ok(id) = check_payload(nonce3, payload) {
+                                    if id.seq == seq as u32 {
+                                        labels.push((host.to_string(), h, port));
+                                    }
+                                }
+                            }
+                            break;
+                        }
+                    }
+                }
+                rep.evaluations += 1;
+                rep.mon("answers_from_two_hosts_on_one_port_number", labels.len() as u64);
+                rep.case(&("same-port", idx), !labels.is_empty());
+                for (asked, h, port) in &labels {
+                    let ok = *port == ta.port && if asked == "127.0.0.2" { h == "127.0.0.2" } else { h == "127.0.0.1" || h == "localhost" };
+                    if !ok {
+                        rep.violation(format!("C02|{}|same-port:answer-labelled-with-another-host", cfgname), format!("{cfgname}: the answer of {asked}:{} is labelled {h}:{port}", ta.port), json!({"seed": a.seed, "config": cfgname, "labels (asked, label host, label port)": labels, "deploy": d.describe()}));
+                        break;
+                    }
+                }
+                echo_b.abort();
+            }
+        }
+    }
     for (who, node) in [("client", &mut client), ("server", &mut server)] {
         if !node.alive() {
             rep.violation(format!("C02|{}|{}-exited", cfgname, who), format!("{who} exited"), json!({"log": node.log_tail(8)}));
